@@ -96,6 +96,9 @@ def extract(repo):
                 pass
             shutil.rmtree(tmp, ignore_errors=True)
             raise FactsError("fact extraction failed (cargo +nightly check rc=%d); the tree must compile.\n%s" % (rc, log))
+        if not [f for f in os.listdir(tmp) if f.endswith(".json")]:
+            shutil.rmtree(tmp, ignore_errors=True)
+            raise FactsError("fact extraction produced no fact files (the driver did not run for any workspace member); nothing is cached")
         meta = {"hash": key, "files_hashed": nfiles, "extract_s": round(time.time() - t0, 2),
                 "fact_files": sorted(f for f in os.listdir(tmp) if f.endswith(".json")),
                 "cache_hit": False}
@@ -108,7 +111,7 @@ def extract(repo):
                 return os.path.getmtime(os.path.join(CACHE, e))
             except OSError:      # evicted by a concurrently running check
                 return 0.0
-        ents = sorted((e for e in os.listdir(CACHE) if os.path.isdir(os.path.join(CACHE, e)) and not e.endswith(".partial")),
+        ents = sorted((e for e in os.listdir(CACHE) if os.path.isdir(os.path.join(CACHE, e)) and not e.endswith(".partial") and e != "deps"),
                       key=_mtime, reverse=True)
         for e in ents[90:]:
             shutil.rmtree(os.path.join(CACHE, e), ignore_errors=True)
